@@ -463,22 +463,24 @@ func (vr *variableResolver) resolve(ctx *ExecutionContext) (*Value, error) {
 
 				if fnArg != typeOfValuePtr {
 					// Function's argument is not a *pongo2.Value, then we have to check whether input argument is of the same type as the function's argument
+					// An interface-typed parameter accepts nil and every value implementing it
+					argType := reflect.TypeOf(pv.Interface())
+					implemented := fnArg.Kind() == reflect.Interface && (argType == nil || argType.Implements(fnArg))
 					if !isVariadic {
-						if fnArg != reflect.TypeOf(pv.Interface()) && fnArg.Kind() != reflect.Interface {
+						if fnArg != argType && !implemented {
 							return nil, fmt.Errorf("function input argument %d of '%s' must be of type %s or *pongo2.Value (not %T)",
 								idx, vr.String(), fnArg.String(), pv.Interface())
 						}
 					} else {
-						if fnArg != reflect.TypeOf(pv.Interface()) && fnArg.Kind() != reflect.Interface {
+						if fnArg != argType && !implemented {
 							return nil, fmt.Errorf("function variadic input argument of '%s' must be of type %s or *pongo2.Value (not %T)",
 								vr.String(), fnArg.String(), pv.Interface())
 						}
 					}
 
 					if pv.IsNil() {
-						// Workaround to present an interface nil as reflect.Value
-						var empty any = nil
-						parameters = append(parameters, reflect.ValueOf(&empty).Elem())
+						// Present an interface nil as reflect.Value (of the parameter's interface type)
+						parameters = append(parameters, reflect.Zero(fnArg))
 					} else {
 						parameters = append(parameters, reflect.ValueOf(pv.Interface()))
 					}
